@@ -8,7 +8,7 @@ That `substring` returns the right substring etc. is not decided.
 import mir
 import rules
 from core import AnchorMissing
-from props import _builtins
+from props import _builtins, _strunits
 
 try:
     from props import _casts
@@ -22,5 +22,6 @@ def run(ctx, rep):
                 "interpretation and compared; casts and narrow-kind arithmetic in the arms are inventoried on MIR.")
     rep.assume("the value each built-in computes (e.g. that substring returns the right substring) is not decided")
     _builtins.run(F, rep, "C14.builtin", "str+num")
+    _strunits.run(F, rep)
     if _casts is not None:
         _casts.run_c14(F, rep)
